@@ -185,7 +185,7 @@ func (p *Proc) Call(req any, resp any) error {
 	case r := <-ch:
 		if r.err != nil {
 			p.kill()
-			return fmt.Errorf("driver died: %v; stderr: %s", r.err, tailStr(p.errb.String(), 4000))
+			return fmt.Errorf("driver died: %v; stderr: %s", r.err, headTail(p.errb.String(), 3000))
 		}
 		if err := json.Unmarshal(r.line, resp); err != nil {
 			return fmt.Errorf("driver reply unparsable: %v: %s", err, oneLine(string(r.line), 300))
@@ -223,6 +223,13 @@ func (p *Proc) Close() {
 }
 
 func (p *Proc) Stderr() string { return p.errb.String() }
+
+func headTail(s string, n int) string {
+	if len(s) <= 2*n {
+		return s
+	}
+	return s[:n] + " …… " + s[len(s)-n:]
+}
 
 func tailStr(s string, n int) string {
 	if len(s) > n {
